@@ -15,7 +15,10 @@ import subprocess
 import sys
 import time
 
-VERIF = os.path.dirname(os.path.dirname(os.path.abspath(__file__)))
+MAIN_VERIF = os.path.dirname(os.path.dirname(os.path.abspath(__file__)))
+# Checks against a seeded change run from a dedicated worktree of /verif (committed HEAD), so that
+# they never race with checks running in /verif itself and never touch its evidence/Gen files.
+VERIF = os.environ.get("SEED_VERIF", "/tmp/vw/_seed")
 
 
 def sh(cmd, cwd=None, timeout=3600, env=None):
@@ -27,6 +30,10 @@ def sh(cmd, cwd=None, timeout=3600, env=None):
 def main():
     args = sys.argv[1:]
     sd = os.path.abspath(args[0])
+    if not os.path.exists(VERIF):
+        sh(["git", "-C", MAIN_VERIF, "worktree", "add", "--detach", VERIF, "HEAD"])
+    sh(["git", "-C", VERIF, "checkout", "-q", "--detach", subprocess.run(["git", "-C", MAIN_VERIF, "rev-parse", "HEAD"], stdout=subprocess.PIPE, text=True).stdout.strip()])
+    sh(["git", "-C", VERIF, "checkout", "--", "."])
     confirm = "--no-confirm" not in args
     tier = args[args.index("--tier") + 1] if "--tier" in args else "quick"
     meta = json.load(open(os.path.join(sd, "meta.json")))
